@@ -23,4 +23,5 @@ def run(ctx):
     ctx.prefetch(std_cfgs)
     ctx.run_rule("I1", r_io.rule_I1, std_cfgs)
     ctx.run_rule("I2", r_io.rule_I2, std_cfgs)
+    ctx.run_rule("I4", r_io.rule_I4, std_cfgs)
     ctx.run_rule("I3", r_io.rule_I3, cfgs)
